@@ -111,6 +111,13 @@ def lastSet {α : Type} : List (Ev α) → Option (Op α)
   | .set o :: t => (match lastSet t with | some o' => some o' | none => some o)
   | _ :: t => lastSet t
 
+/-- the state a line with the capabilities of `st` and a third point never set reaches from the last setter call of `h`
+    alone (`st` itself when `h` has no setter call) -/
+def fromLastSet {α : Type} (e : Enum) (K : Kern α) (st : St α) (h : List (Ev α)) : St α :=
+  match lastSet h with
+  | none => st
+  | some o => step e K ⟨st.caps, K.nan, K.nan⟩ o
+
 /-! ### constructors -/
 
 /-- a line whose third point has not been set: `LineInit` ends with `_a13 = _s13 = NaN` -/
